@@ -98,7 +98,11 @@ class Particle:
             if value.type is not ValueType.ELEMENT or not value.is_array:
                 raise ValueError('{} must be an element array!')
             return [
-                Operator(ele.name, ele.pop('functionName').val_str, copy.deepcopy(dict(ele)))
+                Operator(ele.name, ele.pop('functionName').val_str, {
+                    key: copy.deepcopy(attr)
+                    for key, attr in ele.items()
+                    if key.casefold() != 'name'
+                })
                 for ele in value.iter_elem()
             ]
 
@@ -124,6 +128,7 @@ class Particle:
             options = {
                 value.name.casefold(): copy.deepcopy(value)
                 for value in elem.values()
+                if value.name.casefold() != 'name'
             }
 
             systems[elem.name.casefold()] = Particle(
